@@ -250,7 +250,12 @@ type c03Struct struct {
 
 // c03TypedValues: the same adversarial string through Go value types that encoding/json treats specially.
 func c03TypedValues(s string) map[string]any {
-	js, _ := json.Marshal(s)
+	// raw JSON as another encoder would have produced it: valid JSON, but without HTML escaping
+	var rawBuf strings.Builder
+	enc := json.NewEncoder(&rawBuf)
+	enc.SetEscapeHTML(false)
+	_ = enc.Encode(s)
+	js := []byte(strings.TrimSuffix(rawBuf.String(), "\n"))
 	return map[string]any{
 		"rawmessage":        json.RawMessage(js),
 		"rawmessage-object": json.RawMessage(`{"k": ` + string(js) + `, "x" : [ ` + string(js) + ` ] }`),
